@@ -16,7 +16,7 @@ const guardRuleText = "every panicking operation whose operand may be absent (po
 func runC04(c *Ctx) {
 	const R = "absent-part-guard"
 	c.rule(R, guardRuleText)
-	c.assume("tools-golang, cyclonedx-go and encoding/json do not panic and terminate on arbitrary input (not analysed)")
+	c.assume("tools-golang, cyclonedx-go and encoding/json do not panic and terminate on arbitrary input (not analysed) — except where the frozen table knownPanickingExternals records a demonstrated panic, which must then be contained by the caller")
 	c.assume("tools-golang strips null entries from the relationships array while decoding (document.go); elements of Packages, Files and external references may be nil")
 	c.assume("facts about an access path are not invalidated by calls (a callee that resets the part would be missed)")
 	c.notDecided("totality and complexity of the third-party decoders; polynomial bounds in general")
@@ -35,6 +35,8 @@ func runC04(c *Ctx) {
 	c.floor(R, 20, "pointer-field dereferences and constant indices in the two readers")
 	resultDiscipline(c, []string{cdxUnser, spdxUnser, "reader.(*Reader).ParseStreamWithOptions", "reader.(*Reader).detectFormat", "formats.(*Sniffer).SniffReader", "reader.GetFormatUnserializer"})
 	noExitRule(c, parserEntries)
+	panickingDecoderContained(c, parserEntries)
+	noLockReentry(c, parserEntries)
 	wellFounded(c, parserEntries)
 	nilMapWriteRule(c, parserEntries)
 	// "never … return both or neither" for format detection: no (empty format, nil error)
@@ -68,4 +70,5 @@ func runC07(c *Ctx) {
 	nilMapWriteRule(c, serializerEntries)
 	mapOrderRule(c, ds)
 	nestingAcyclic(c)
+	noLockReentry(c, serializerEntries)
 }
